@@ -22,6 +22,7 @@ RULE = (
     "below it. Non-trivial = a table with >= 4 rows whose mobility is positive on at least 3 rows. Distinct = hash "
     "of the case record. After from_table the caller's PVT and rel-perm tables are overwritten in place and the object's "
     "functions and m_i must be what they were."
+    " The from_table object is also copied (copy, deepcopy, pickle) and the copies must agree with the original."
 )
 ASSUMPTIONS = [
     "total mass mobility as in docs/background.md with k and rho_ref = 1: rho_o (Rv krg/(mu_g Bg) + kro/(mu_o Bo)) + rho_g (krg/(mu_g Bg) + Rs kro/(mu_o Bo)) + rho_w krw/(mu_w Bw)",
@@ -220,6 +221,9 @@ def check_case(case) -> Result:
     # unit system, buffers re-used for the next well) must not change it
     pq = np.array([p_i, p_f, float(p[len(p) // 2])])
     ms = ms.copy()
+    from vf import tables as _tables
+
+    _tables.copies_agree(res, "C15/copy-is-the-same-fluid", fp, pq, np.concatenate([ms, [ms[0] - 1.0, ms[-1] * 2 + 1.0]]), f"from_table ({case['container']})")
     before = (np.asarray(fp.m_scaled_func(pq), float).copy(), float(fp.m_i), np.asarray(fp.alpha(ms), float).copy())
     from vf import tables as _tables
 
